@@ -711,7 +711,7 @@ def generate_reentrant(seed, count):
 
 # ---------------------------------------------------------------- viz profile (declared functions)
 
-def generate_viz(seed, count, decorators=False):
+def generate_viz(seed, count, decorators=False, pool_decorators=False):
     """histories whose constructors are the declared pool functions P0..P47
     (distinct dig IDs / names); DOT text is recorded after every operation.
     With decorators=True some provided keys also get a (reflect.MakeFunc) decorator that may
@@ -768,6 +768,24 @@ def generate_viz(seed, count, decorators=False):
             if rng.random() < 0.2 and len(parents) < 4:
                 ops.append(dict(op="scope", parent=rng.randrange(len(parents))))
                 parents.append(0)
+        if pool_decorators:
+            # declared functions with only single results used as DECORATORS (CallbackInfo.Name of a
+            # decorator must identify it); never one that is also a constructor of this history
+            used = {f.get("pool") for f in fns}
+            cands = [sg for sg in pool if sg["pool"] not in used
+                     and all(r["k"] == "single" for r0 in sg["results"] for r in (r0["fields"] if r0["k"] == "obj" else [r0]))]
+            for sg in rng.sample(cands, min(len(cands), rng.randint(1, 3))):
+                f = copy.deepcopy(sg)
+                f["id"] = nfn
+                nfn += 1
+                f["callback"] = True
+                if rng.random() < 0.3:
+                    f["plan"] = [rng.choice(["err", "panic"]) if f["err"] else "panic", "ok", "ok"]
+                fns.append(f)
+                ops.append(dict(op="decorate", scope=rng.randrange(len(parents)), fn=f["id"]))
+                for r0 in f["results"]:
+                    for r in (r0["fields"] if r0["k"] == "obj" else [r0]):
+                        provided.append(("s", r["ty"], r.get("name", 0)))
         if decorators and provided:
             for k in rng.sample(provided, min(len(provided), rng.randint(1, 3))):
                 if k[0] == "s":
